@@ -202,8 +202,9 @@ def run(rep: Report, prog: Program, tier: str) -> None:
     from .common import import_rules
     import_rules(rep, prog, tier, PROP, "C11-FEEDBACK", "C07", ["C07-NACK", "C07-RTP"],
                  "the NACK the receiver sends denotes, after parsing at the sender, exactly the lost sequence numbers; RTX wrapping is invertible (rules C07-NACK, C07-RTP)", 30)
-    import_rules(rep, prog, tier, PROP, "C11-JB", "C10", ["C10-FRAMES", "C10-OVERFLOW"],
-                 "the jitter buffer hands over whole frames in sending order, tails only right after a discard (rules C10-FRAMES, C10-OVERFLOW)", 100)
+    import_rules(rep, prog, tier, PROP, "C11-JB", "C10", ["C10-FRAMES", "C10-OVERFLOW", "C10-ACCEPT"],
+                 "the jitter buffer hands over whole frames in sending order, tails only right after a discard; media packets and unwrapped retransmissions "
+                 "reach it exactly once under their original numbers (rules C10-FRAMES, C10-OVERFLOW, C10-ACCEPT)", 100)
 
     # ---------------- C11-SEQALLOC: every RTP / RTX sequence number handed out is followed by advancing its counter (modulo 2^16)
     rep.rule("C11-SEQALLOC", "sequence-number counters of the sender are advanced after each use", min_instances=2)
